@@ -65,4 +65,51 @@ def rsplit1 (sep : Nat) (s : Name) : List Name :=
 def toUpper (s : Name) : Name := s.map fun c => if 97 ≤ c ∧ c ≤ 122 then c - 32 else c
 def toLower (s : Name) : Name := s.map fun c => if 65 ≤ c ∧ c ≤ 90 then c + 32 else c
 
+/-! ### `bytes.decode("utf-8", errors="replace")` (template and member names of an uploaded structure definition) -/
+
+def isCont (b : UInt8) : Bool := 0x80 ≤ b && b ≤ 0xBF
+/-- range of the SECOND byte after lead `b` (Unicode table 3-7), and the number of continuation bytes -/
+def lead (b : UInt8) : Option (Nat × UInt8 × UInt8) :=
+  if 0xC2 ≤ b && b ≤ 0xDF then some (1, 0x80, 0xBF)
+  else if b == 0xE0 then some (2, 0xA0, 0xBF)
+  else if (0xE1 ≤ b && b ≤ 0xEC) || b == 0xEE || b == 0xEF then some (2, 0x80, 0xBF)
+  else if b == 0xED then some (2, 0x80, 0x9F)
+  else if b == 0xF0 then some (3, 0x90, 0xBF)
+  else if 0xF1 ≤ b && b ≤ 0xF3 then some (3, 0x80, 0xBF)
+  else if b == 0xF4 then some (3, 0x80, 0x8F)
+  else none
+
+/-- one step of the UTF-8 decoder with `errors="replace"` on a non-empty input: the code point produced and the number
+    of bytes consumed (≥ 1); a maximal ill-formed subpart becomes one U+FFFD -/
+def utf8Step (b : UInt8) (rest : Bytes) : Nat × Nat :=
+  if b < 0x80 then (b.toNat, 1)
+  else match lead b with
+    | none => (0xFFFD, 1)
+    | some (n, lo, hi) =>
+      match rest with
+      | [] => (0xFFFD, 1)
+      | c1 :: r1 =>
+        if !(lo ≤ c1 && c1 ≤ hi) then (0xFFFD, 1)
+        else if n == 1 then ((b.toNat - 0xC0) * 64 + (c1.toNat - 0x80), 2)
+        else match r1 with
+          | [] => (0xFFFD, 2)
+          | c2 :: r2 =>
+            if !isCont c2 then (0xFFFD, 2)
+            else if n == 2 then ((b.toNat - 0xE0) * 4096 + (c1.toNat - 0x80) * 64 + (c2.toNat - 0x80), 3)
+            else match r2 with
+              | [] => (0xFFFD, 3)
+              | c3 :: _ =>
+                if !isCont c3 then (0xFFFD, 3)
+                else ((b.toNat - 0xF0) * 262144 + (c1.toNat - 0x80) * 4096 + (c2.toNat - 0x80) * 64 + (c3.toNat - 0x80), 4)
+
+def utf8Go : Nat → Bytes → List Nat
+  | 0, _ => []
+  | _ + 1, [] => []
+  | f + 1, b :: rest =>
+      let (cp, k) := utf8Step b rest
+      cp :: utf8Go f (rest.drop (k - 1))
+
+/-- `bytes.decode("utf-8", errors="replace")` -/
+def utf8Replace (bs : Bytes) : List Nat := utf8Go bs.length bs
+
 end Pycomm.PyStr
